@@ -190,6 +190,8 @@ def run(facts, rep, tier):
         only, p = option_some_payload(s[1])
         if p is None:
             p = s[1] if isinstance(s[1], (IntV, FloatV)) else None
+        if p is not None and not isinstance(p, (IntV, FloatV)):
+            p = None
         if p is None:
             rep.oblige(False, (rule, lab, f))
             rep.add(Finding(rule, "%s has no value in a valid %s" % (f, lab.split()[1]), "context '%s': %s = %r" % (lab, f, s[1]), None))
